@@ -125,3 +125,26 @@ Module IgnoredLast.
           ++ [10;32;32;97;116;32;118;58;51;32;105;110;32;102;10]%N ++ [32;32;32;32;32;32;32;32;49;124;32;120;10]%N).
   Proof. vm_compute. reflexivity. Qed.
 End IgnoredLast.
+
+(* ------------------------------------------------------------------ the snippet clauses composed on code_snippet itself *)
+(* whenever the source has the failing line, the snippet has it: at some position k the snippet's line is the failing line
+   with ITS number, marked - and no other line of the snippet is marked *)
+Theorem snippet_shows_failing_line u toks line before after d :
+  (0 <= before)%Z -> (0 <= after)%Z -> (1 <= line)%Z -> (line <= Z.of_nat (length (split_to_lines toks)))%Z ->
+  let lines := split_to_lines toks in
+  let off := Z.to_nat (Z.max (line - before - 1) 0) in
+  exists k, (Z.of_nat k < after + before + 1)%Z /\
+    nth k (code_snippet u toks line before after) d
+      = number_line u (number_width (length lines)) line line (nth (Z.to_nat (line - 1)) lines []) /\
+    marked u (nth k (code_snippet u toks line before after) d) /\
+    (forall j, (Z.of_nat j < after + before + 1)%Z -> (off + j < length lines)%nat ->
+               marked u (nth j (code_snippet u toks line before after) d) -> j = k).
+Proof.
+  intros Hb Ha H1 Hn. cbv zeta. destruct (code_snippet_has_line toks line before after Hb Ha H1 Hn) as (k & Hk & Hl & Hlen).
+  exists k. split; [exact Hk|].
+  pose proof (code_snippet_nth u toks line before after k d Hb Ha Hk Hlen) as E. rewrite Hl in E.
+  replace (Z.to_nat (Z.max (line - before - 1) 0) + k)%nat with (Z.to_nat (line - 1)) in E by lia.
+  split; [exact E|]. split; [rewrite E; apply number_line_marked; reflexivity|].
+  intros j Hj Hjl Hm. rewrite (code_snippet_nth u toks line before after j d Hb Ha Hj Hjl) in Hm.
+  apply number_line_marked in Hm. lia.
+Qed.
